@@ -308,6 +308,7 @@ def run_check(prop, tier="quick", seed=0, replay=None):
     impl_out = []
     violations = []
     nontrivial = set()
+    conformance_failures = []
     for case in cases:
         try:
             obs = mod.observe(case)
@@ -320,6 +321,13 @@ def run_check(prop, tier="quick", seed=0, replay=None):
         except BaseException as err:
             notes.append("oracle crashed on %s: %s" % (case, traceback.format_exc()[-400:]))
             broken.append("oracle crashed: %r" % (err,))
+        if hasattr(mod, "conformance"):
+            try:
+                nc = mod.conformance(case, obs)
+            except BaseException as err:
+                nc = "conformance check crashed: %r" % (err,)
+            if nc:
+                conformance_failures.append({"case": case, "why": nc})
         tag = mod.classify(case, obs) if hasattr(mod, "classify") else obs[:16]
         if tag is not None:
             stats[tag] = stats.get(tag, 0) + 1
@@ -329,17 +337,27 @@ def run_check(prop, tier="quick", seed=0, replay=None):
     violations.extend(extra[0])
     extra_stats = extra[1]
 
+    if conformance_failures:
+        broken.append("translator/template conformance: %d cases (first: %s)"
+                      % (len(conformance_failures), json.dumps(conformance_failures[0])[:400]))
     disagreements = []
     model_lines = []
     if driver_ok and cases:
         try:
-            model_lines = [l for c in cases for l in (mod.to_model(c) if hasattr(mod, "to_model") else [c])]
-            model_out = run_driver(model_lines)
-            if len(model_out) != len(impl_out):
-                broken.append("driver produced %d lines for %d cases"
-                              % (len(model_out), len(impl_out)))
+            per_case = [(mod.to_model(c) if hasattr(mod, "to_model") else [c]) for c in cases]
+            model_lines = [l for ls in per_case for l in ls]
+            model_out = run_driver(model_lines) if model_lines else []
+            if len(model_out) != len(model_lines):
+                broken.append("driver produced %d lines for %d protocol lines"
+                              % (len(model_out), len(model_lines)))
             else:
-                for c, a, b in zip(cases, impl_out, model_out):
+                it = iter(model_out)
+                paired = []
+                for c, a, ls in zip(cases, impl_out, per_case):
+                    outs = [next(it) for _ in ls]
+                    if outs:           # cases without a model line are oracle/conformance only
+                        paired.append((c, a, " ".join(outs)))
+                for c, a, b in paired:
                     if b.startswith("unsupported"):
                         stats["model-unsupported"] = stats.get("model-unsupported", 0) + 1
                         continue
